@@ -36,3 +36,26 @@ Theorem C09_no_two_consecutive_burst_symbols : forall c s f t l s' f' u t2,
   forall b2, fst (fst (fst (linklayer_symbol c s' f' t2))) <> LBurst b2.
 Proof. exact no_two_burst_ticks. Qed.
 Print Assumptions C09_no_two_consecutive_burst_symbols.
+
+(** Trace level, for EVERY item stream: an armed timer whose deadline [tm] has passed does not
+    survive two further symbols (with any number of symbol-less samples between them): by then an
+    EndOfMessage event has been emitted, or a newer StartOfMessage has re-armed the timer with a
+    later deadline (and then the same statement applies to that one). *)
+From Sameold Require Import Proofs.ClosedP.
+Theorem C09_armed_timer_resolves : forall c,
+  max_prefix_bit_errors (fc c) <= 7 ->
+  forall pre k tm t1 gap t2,
+  J c k -> r_force_eom k = Some tm ->
+  Forall (fun i => i = NoTick) gap ->
+  tm < r_samples k + N.of_nat (length pre) + 1 ->
+  let r := run_core c k (pre ++ Tick t1 :: gap ++ [Tick t2]) in
+  resolved tm (fst r) (snd r).
+Proof. exact armed_timer_resolves. Qed.
+Print Assumptions C09_armed_timer_resolves.
+
+(** the invariant it needs holds initially and is kept by every step *)
+Theorem C09_timer_invariant : forall c,
+  max_prefix_bit_errors (fc c) <= 7 ->
+  J c core_init /\ (forall k i k' evs, J c k -> step_core c k i = (k', evs) -> J c k').
+Proof. intros c Hb. split; [apply J_init|apply step_J; exact Hb]. Qed.
+Print Assumptions C09_timer_invariant.
